@@ -318,7 +318,7 @@ func generatedMain(ts []triple) string {
 	sb.WriteString(`func verifRows(w func(*vsched.Chan[string], *vsched.Chan[*R]), files []string) []c13.Row {
 	jobs := vsched.NewChan[string](0)
 	out := vsched.NewChan[*R](0)
-	go w(jobs, out)
+	vsched.Go(func() { w(jobs, out) })
 	var rows []c13.Row
 	for _, f := range files {
 		jobs.Send(f)
@@ -340,6 +340,8 @@ type Params struct {
 	Scale   string `json:"scale"`
 	Files   int    `json:"files"`
 	Workers int    `json:"workers"`
+	DotDirs bool   `json:"dot_dirs"` // the input directory and a sub-directory have names ending in .bin / .dat
+	Small   bool   `json:"small"`    // columns mode: 12500-byte files (race pass)
 }
 
 func SubMain(h Hooks) {
@@ -351,21 +353,28 @@ func fileSize(scale string) int {
 }
 
 // makeTree writes nf sample files (nested directory, .bin and .dat, plus a .txt and an empty sub-directory).
-func makeTree(root string, nf, size int) (names []string, data map[string][]byte) {
+func makeTree(root string, nf, size int, dotDirs bool) (in string, names []string, data map[string][]byte) {
 	data = map[string][]byte{}
-	_ = os.MkdirAll(filepath.Join(root, "in", "sub", "deeper"), 0o755)
-	_ = os.MkdirAll(filepath.Join(root, "in", "emptydir"), 0o755)
-	_ = os.WriteFile(filepath.Join(root, "in", "notes.txt"), []byte("not a sample"), 0o644)
-	_ = os.WriteFile(filepath.Join(root, "in", "sub", "readme.md"), []byte("not a sample either"), 0o644)
+	in, sub := "in", "sub"
+	if dotDirs {
+		in, sub = "in.bin", "sub.dat"
+	}
+	_ = os.MkdirAll(filepath.Join(root, in, sub, "deeper"), 0o755)
+	_ = os.MkdirAll(filepath.Join(root, in, "emptydir"), 0o755)
+	if dotDirs {
+		_ = os.MkdirAll(filepath.Join(root, in, "empty.bin"), 0o755)
+	}
+	_ = os.WriteFile(filepath.Join(root, in, "notes.txt"), []byte("not a sample"), 0o644)
+	_ = os.WriteFile(filepath.Join(root, in, sub, "readme.md"), []byte("not a sample either"), 0o644)
 	for i := 0; i < nf; i++ {
 		var p string
 		switch i % 3 {
 		case 0:
-			p = filepath.Join("in", fmt.Sprintf("s%d.bin", i))
+			p = filepath.Join(in, fmt.Sprintf("s%d.bin", i))
 		case 1:
-			p = filepath.Join("in", "sub", fmt.Sprintf("s%d.dat", i))
+			p = filepath.Join(in, sub, fmt.Sprintf("s%d.dat", i))
 		default:
-			p = filepath.Join("in", "sub", "deeper", fmt.Sprintf("s%d.bin", i))
+			p = filepath.Join(in, sub, "deeper", fmt.Sprintf("s%d.bin", i))
 		}
 		b := contents(i, size)
 		_ = os.WriteFile(filepath.Join(root, p), b, 0o644)
@@ -482,6 +491,9 @@ func handle(h Hooks, t e1.Task) (*e1.Result, map[uint64]struct{}) {
 		// drive the scale's worker on small files; every column against the library call its label names
 		res := &e1.Result{Task: t, Outcomes: map[string]int{}, Signatures: map[string]int{}, Extra: map[string]int{}}
 		size := 25000
+		if p.Small {
+			size = 12500
+		}
 		var files []string
 		var datas [][]byte
 		for k := 0; k < p.Files; k++ {
@@ -543,9 +555,67 @@ func handle(h Hooks, t e1.Task) (*e1.Result, map[uint64]struct{}) {
 		res.WallS = time.Since(start).Seconds()
 		return res, map[uint64]struct{}{uint64(len(cols)): {}}
 	}
+	if p.Mode == "colsched" {
+		// the scale's worker under the controlled scheduler on one small file: scheduling points at channel
+		// operations, goroutine starts and every statement that touches a variable shared with a goroutine
+		size := 25000
+		if p.Small {
+			size = 12500
+		}
+		b := contents(5, size)
+		fn := filepath.Join(base, "cs.bin")
+		_ = os.WriteFile(fn, b, 0o644)
+		exp := expectedRow(cols, b)
+		vsched.MaxTouches = 400
+		cfg := explore.Config{Name: t.Name, Bound: t.Bound, CostAll: true, Shard: t.Shard, NShards: t.NShards, MaxExecs: t.MaxExec,
+			Opt: vsched.Options{NumCPU: 2, Policy: t.Policy, MaxSteps: 400000}}
+		if t.Budget > 0 {
+			cfg.Deadline = start.Add(time.Duration(t.Budget * float64(time.Second)))
+		}
+		cfg.NewExec = func() (func(), func(*vsched.Exec) explore.Verdict) {
+			var rows []Row
+			body := func() { rows = sh.Rows([]string{fn}) }
+			check := func(x *vsched.Exec) explore.Verdict {
+				v := explore.Verdict{Signature: x.Outcome.String()}
+				switch x.Outcome {
+				case vsched.OutPanic:
+					v.Violation = "panic: " + x.PanicVal
+				case vsched.OutDeadlock, vsched.OutLeak:
+					v.Violation = fmt.Sprintf("%s: %v", x.Outcome, x.Blocked)
+				case vsched.OutHorizon:
+					v.Violation = "livelock: step horizon exceeded"
+				default:
+					if len(rows) != 1 {
+						v.Violation = fmt.Sprintf("%d rows for one file", len(rows))
+						break
+					}
+					var vals []float64
+					for j := range rows[0].P {
+						vals = append(vals, rows[0].P[j])
+						if j < len(rows[0].Q) {
+							vals = append(vals, rows[0].Q[j])
+						}
+					}
+					if len(vals) != len(cols) {
+						v.Violation = fmt.Sprintf("row has %d value columns, the header %d", len(vals), len(cols))
+						break
+					}
+					for i := range cols {
+						if !math.IsNaN(exp[i]) && math.Abs(vals[i]-exp[i]) > 0.5e-6+1e-9 {
+							v.Violation = fmt.Sprintf("scale %s: column %d %q holds %.6f, the library value it names is %.6f", p.Scale, i+1, cols[i].Label, vals[i], exp[i])
+							break
+						}
+					}
+				}
+				return v
+			}
+			return body, check
+		}
+		st := explore.Explore(cfg)
+		return e1.FromStats(t, st, time.Since(start)), st.States
+	}
 	// sched: the real main() under the controlled scheduler
-	names, data := makeTree(base, p.Files, fileSize(p.Scale))
-	_ = names
+	inDir, _, data := makeTree(base, p.Files, fileSize(p.Scale), p.DotDirs)
 	expRows := map[string][]float64{}
 	for n, b := range data {
 		expRows[n] = expectedRow(cols, b)
@@ -559,7 +629,7 @@ func handle(h Hooks, t e1.Task) (*e1.Result, map[uint64]struct{}) {
 	cfg.NewExec = func() (func(), func(*vsched.Exec) explore.Verdict) {
 		execNo++
 		rep := filepath.Join(base, fmt.Sprintf("report%d.csv", execNo))
-		os.Args = []string{"rddetector", "-i", filepath.Join(base, "in"), "-o", rep, "-n", fmt.Sprint(p.Workers)}
+		os.Args = []string{"rddetector", "-i", filepath.Join(base, inDir), "-o", rep, "-n", fmt.Sprint(p.Workers)}
 		if f := flag.Lookup("v"); f != nil {
 			_ = flag.Set("v", "false")
 		}
@@ -597,7 +667,7 @@ func Run(ctx *common.Ctx) int {
 		ctx.Note("discovery of the per-scale workers failed (%v); falling back to the conventional names", derr)
 		ts = []triple{{"2E4", "Header_2E4", "worker_2E4"}, {"1E6", "Header_1E6", "worker_1E6"}, {"1E8", "Header_1E8", "worker_1E8"}}
 	}
-	info, err := e1.Build(ctx, "rddetector", []e1.PkgSpec{{Dir: "/repo/tools/rddetector", RenameMain: "verifOrigMain", FileOps: true, Extra: map[string]string{"verif_main.go": generatedMain(ts)}}},
+	info, err := e1.Build(ctx, "rddetector", []e1.PkgSpec{{Dir: "/repo/tools/rddetector", RenameMain: "verifOrigMain", FileOps: true, Touch: true, Extra: map[string]string{"verif_main.go": generatedMain(ts)}}},
 		"github.com/Trisia/randomness/tools/rddetector", false)
 	if err != nil {
 		ctx.Printf("C13: cannot build the instrumented detector: %v\n", err)
@@ -612,6 +682,22 @@ func Run(ctx *common.Ctx) int {
 		}
 		p, _ := json.Marshal(Params{Mode: "columns", Scale: t.Scale, Files: nf})
 		tasks = append(tasks, e1.Task{Check: "C13", Name: "c13/columns/" + t.Scale, Params: p, NShards: 1})
+	}
+	goCount := goStatements()
+	for _, t := range ts {
+		// the worker itself under the scheduler: always for the two cheap scales; for 10^8 (seconds per execution)
+		// when its worker starts goroutines beyond the final hand-off, or in thorough
+		if t.Scale == "1E8" && quick && goCount[t.Worker] <= 1 {
+			continue
+		}
+		for _, pol := range []int{0, 3} {
+			p, _ := json.Marshal(Params{Mode: "colsched", Scale: t.Scale, Small: t.Scale == "1E8"})
+			tk := e1.Task{Check: "C13", Name: fmt.Sprintf("c13/colsched/%s/b1/p%d", t.Scale, pol), Params: p, Bound: 1, Policy: pol, NShards: 1, CostAll: true}
+			if t.Scale == "1E8" {
+				tk.MaxExec = 120
+			}
+			tasks = append(tasks, tk)
+		}
 	}
 	for _, F := range []int{1, 2, 3} {
 		for _, nW := range []int{1, 2, 3, 64} {
@@ -628,6 +714,11 @@ func Run(ctx *common.Ctx) int {
 			p, _ := json.Marshal(Params{Mode: "sched", Scale: "2E4", Files: F, Workers: nW})
 			for sh := 0; sh < shards; sh++ {
 				tasks = append(tasks, e1.Task{Check: "C13", Name: fmt.Sprintf("c13/sched/F%d/n%d/b%d", F, nW, bound), Params: p, Bound: bound, W: 4, Shard: sh, NShards: shards, CostAll: true})
+			}
+			if F == 2 && nW == 2 {
+				// input directory and a sub-directory whose own names end in .bin / .dat: they are not samples
+				pd, _ := json.Marshal(Params{Mode: "sched", Scale: "2E4", Files: F, Workers: nW, DotDirs: true})
+				tasks = append(tasks, e1.Task{Check: "C13", Name: fmt.Sprintf("c13/sched-dotdirs/F%d/n%d/b1", F, nW), Params: pd, Bound: 1, W: 4, NShards: 1, CostAll: true})
 			}
 			if F >= 2 && nW >= 2 && nW <= 3 {
 				// the same under the delay-bounded default policy (a preempted thread stays behind until all others block)
@@ -670,6 +761,39 @@ func Run(ctx *common.Ctx) int {
 	for _, e := range m.ToolErrors {
 		ctx.Note("tool error (not a violation): %s", e)
 	}
+	// ---------- race pass: every scale's worker, free-running under the race detector ----------
+	raceRuns := 0
+	if rinfo, rerr := e1.Build(ctx, "rddetector-race", []e1.PkgSpec{{Dir: "/repo/tools/rddetector", RenameMain: "verifOrigMain", FileOps: true, Extra: map[string]string{"verif_main.go": generatedMain(ts)}}},
+		"github.com/Trisia/randomness/tools/rddetector", true); rerr != nil {
+		ctx.Note("race build of the detector failed: %v", rerr)
+	} else {
+		for _, t := range ts {
+			if ctx.Expired() || (quick && t.Scale != "2E4" && goCount[t.Worker] <= 1) {
+				continue
+			}
+			p, _ := json.Marshal(Params{Mode: "columns", Scale: t.Scale, Files: 2, Small: true})
+			tf := filepath.Join(ctx.Work, "race-task-"+t.Scale+".json")
+			rf := filepath.Join(ctx.Work, "race-res-"+t.Scale+".json")
+			tb, _ := json.Marshal(e1.Task{Check: "C13", Name: "c13/race/" + t.Scale, Params: p, NShards: 1})
+			_ = os.WriteFile(tf, tb, 0o644)
+			cmd := exec.Command(rinfo.Bin, "C13", "--task", tf, "--result", rf)
+			cmd.Env = append(os.Environ(), "GORACE=halt_on_error=0 exitcode=0")
+			out, err := cmd.CombinedOutput()
+			raceRuns++
+			if n := strings.Count(string(out), "WARNING: DATA RACE"); n > 0 {
+				i := strings.Index(string(out), "WARNING: DATA RACE")
+				rep := string(out)[i:]
+				if len(rep) > 2500 {
+					rep = rep[:2500]
+				}
+				ctx.Report("race/"+t.Scale, fmt.Sprintf("the race detector reports %d data race(s) while the %s worker processes two files", n, t.Scale), map[string]interface{}{"scale": t.Scale, "report": rep})
+			} else if err != nil {
+				ctx.Note("race pass for scale %s ended with %v", t.Scale, err)
+			}
+			_ = os.Remove(tf)
+			_ = os.Remove(rf)
+		}
+	}
 	// ---------- end-to-end with the built binary ----------
 	e2e := 0
 	det, berr := e1.BuildPlain(ctx, "rddetector.bin", "github.com/Trisia/randomness/tools/rddetector", false)
@@ -680,10 +804,11 @@ func Run(ctx *common.Ctx) int {
 			scale   string
 			files   int
 			workers int
+			dot     bool
 		}
-		cfgs := []cfg{{"2E4", 1, 1}, {"2E4", 5, 4}, {"2E4", 33, 64}, {"1E6", 1, 4}, {"1E6", 5, 64}}
+		cfgs := []cfg{{"2E4", 1, 1, false}, {"2E4", 5, 4, false}, {"2E4", 33, 64, false}, {"2E4", 7, 3, true}, {"1E6", 1, 4, false}, {"1E6", 5, 64, false}}
 		if !quick {
-			cfgs = append(cfgs, cfg{"1E6", 33, 4}, cfg{"2E4", 33, 1})
+			cfgs = append(cfgs, cfg{"1E6", 33, 4, false}, cfg{"2E4", 33, 1, false}, cfg{"1E6", 4, 2, true})
 		}
 		hdrs := headersFromSource(ts)
 		for ci, c := range cfgs {
@@ -691,15 +816,15 @@ func Run(ctx *common.Ctx) int {
 				break
 			}
 			dir := filepath.Join(ctx.Work, fmt.Sprintf("c13e2e%d", ci))
-			_, data := makeTree(dir, c.files, fileSize(c.scale))
+			inDir, _, data := makeTree(dir, c.files, fileSize(c.scale), c.dot)
 			rep := filepath.Join(dir, "out", "report.csv")
-			cmd := exec.Command(det, "-i", filepath.Join(dir, "in"), "-o", rep, "-n", fmt.Sprint(c.workers))
+			cmd := exec.Command(det, "-i", filepath.Join(dir, inDir), "-o", rep, "-n", fmt.Sprint(c.workers))
 			cmd.Dir = dir
 			cmd.Stdout, cmd.Stderr = io.Discard, io.Discard
 			err := runTimeout(cmd, 20*time.Minute)
 			e2e++
 			b, _ := os.ReadFile(rep)
-			key := fmt.Sprintf("e2e/%s/F%d/n%d", c.scale, c.files, c.workers)
+			key := fmt.Sprintf("e2e/%s/F%d/n%d/dotdirs=%v", c.scale, c.files, c.workers, c.dot)
 			hdr := hdrs[c.scale]
 			cols, herr := parseHeader(hdr)
 			switch {
@@ -742,12 +867,38 @@ func Run(ctx *common.Ctx) int {
 		"instrumentation":          info.Counts,
 		"max_points_per_execution": m.MaxPoints,
 		"end_to_end_runs":          e2e,
+		"race_pass_runs":           raceRuns,
 		"bounds":                   "deviation bound 1 (thorough: 2 for F<=2, n<=2); F<=3 files; n<=3 workers (64 with F=3 in thorough)",
 		"exhaustive":               len(m.Capped) == 0 && len(m.ToolErrors) == 0,
 	}
 	return ctx.Finish("model_checking", cov, []string{"file writes of the report, channel operations, WaitGroup operations and goroutine starts are scheduling points; the tests themselves run uninterrupted (they are pure, C18)",
 		"the 10^8-bit scale is exercised through its worker on 25000-byte files (a random 10^8-bit file costs about 17 minutes in linear complexity alone)",
-		"a directory whose own name ends in .bin/.dat is outside the enumerated family"})
+		"directories whose own names end in .bin/.dat (input root, a sub-directory, an empty one) are part of the family since round 2 of the seeded changes"})
+}
+
+// goStatements counts the go statements per top-level function of the detector package.
+func goStatements() map[string]int {
+	out := map[string]int{}
+	fset := token.NewFileSet()
+	pkgs, err := parser.ParseDir(fset, "/repo/tools/rddetector", nil, 0)
+	if err != nil {
+		return out
+	}
+	for _, pkg := range pkgs {
+		for _, f := range pkg.Files {
+			for _, d := range f.Decls {
+				if fd, ok := d.(*ast.FuncDecl); ok && fd.Body != nil {
+					ast.Inspect(fd.Body, func(n ast.Node) bool {
+						if _, ok := n.(*ast.GoStmt); ok {
+							out[fd.Name.Name]++
+						}
+						return true
+					})
+				}
+			}
+		}
+	}
+	return out
 }
 
 // headersFromSource evaluates the header constants from the source text (string concatenations of literals).
@@ -846,4 +997,24 @@ func maxInt(a, b int) int {
 		return a
 	}
 	return b
+}
+
+// DebugRace builds the race variant and prints the raw output of one columns run (development aid).
+func DebugRace(ctx *common.Ctx) string {
+	ts, _ := discover()
+	rinfo, rerr := e1.Build(ctx, "rddetector-race", []e1.PkgSpec{{Dir: "/repo/tools/rddetector", RenameMain: "verifOrigMain", FileOps: true, Extra: map[string]string{"verif_main.go": generatedMain(ts)}}},
+		"github.com/Trisia/randomness/tools/rddetector", true)
+	if rerr != nil {
+		return rerr.Error()
+	}
+	p, _ := json.Marshal(Params{Mode: "columns", Scale: "1E6", Files: 2, Small: true})
+	tf := filepath.Join(ctx.Work, "race-task.json")
+	rf := filepath.Join(ctx.Work, "race-res.json")
+	tb, _ := json.Marshal(e1.Task{Check: "C13", Name: "c13/race", Params: p, NShards: 1})
+	_ = os.WriteFile(tf, tb, 0o644)
+	cmd := exec.Command(rinfo.Bin, "C13", "--task", tf, "--result", rf)
+	cmd.Env = append(os.Environ(), "GORACE=halt_on_error=0 exitcode=0")
+	out, err := cmd.CombinedOutput()
+	res, _ := os.ReadFile(rf)
+	return fmt.Sprintf("err=%v\nout=%s\nres=%s", err, out, res)
 }
